@@ -123,3 +123,43 @@ void h_send(void)
   if (G_data_sent) { IORA_CANARY("h_send: data sent"); }
   if (G_close_sent) { IORA_CANARY("h_send: close sent"); }
 }
+
+/* ===== handleFrame: control frames (property C18: control frames between fragments do not disturb reassembly; pings answered with matching pongs;
+ * the close echo is sent exactly once and marks the session before it is sent) - plain, loop-free, full domain ===== */
+void h_hf(void)
+{
+  WsServer srv; WsFrameIn fr; SessionId sid = nondet_u64();
+  srv.has_gs = nondet_bool(); srv.gs.closeSent = nondet_bool(); srv._wsMutex.held = 0; srv._onClose = nondet_bool(); srv._onError = nondet_bool();
+  srv.gs.fragmentBuffer.n = nondet_size_t(); srv.gs.fragmentBuffer.gk = nondet_u8(); srv.gs.fragmentOpcode = nondet_u8();
+  size_t n = nondet_size_t(); __CPROVER_assume(n <= ((size_t)1 << 40)); uint8_t *p = malloc(n); __CPROVER_assume(p != 0);
+  fr.payload.p = p; fr.payload.n = n; fr.opcode = nondet_u8(); fr.fin = nondet_bool(); fr.masked = nondet_bool();
+  GK = nondet_size_t();
+  G_data_sent = 0; G_close_sent = 0; G_pong_sent = 0; G_hdf_calls = 0; G_closecb_calls = 0; G_closeSession_calls = 0; G_sendClose_calls = 0; G_err_calls = 0;
+  bool had = srv.has_gs, was_closing = srv.has_gs && srv.gs.closeSent; size_t fb_n = srv.gs.fragmentBuffer.n; uint8_t fb_gk = srv.gs.fragmentBuffer.gk; WsOpcode fb_op = srv.gs.fragmentOpcode;
+  uint8_t pgk = GK < n ? p[GK] : 0; uint16_t code = n < 2 ? 1005 : (uint16_t)(((uint16_t)p[0] << 8) | p[1]);
+  WsServer_handleFrame_real(&srv, sid, &fr);
+  __CPROVER_assert(!srv._wsMutex.held, "LK5: no lock held at return");
+  bool is_data = fr.opcode == WsOpcode_TEXT || fr.opcode == WsOpcode_BINARY || fr.opcode == WsOpcode_CONTINUATION;
+  __CPROVER_assert(G_hdf_calls == (is_data ? 1 : 0), "HF1: data frames (and only data frames) go to handleDataFrame, exactly once");
+  __CPROVER_assert(is_data || fr.opcode == WsOpcode_CLOSE || !srv.has_gs || (srv.gs.fragmentBuffer.n == fb_n && srv.gs.fragmentBuffer.gk == fb_gk && srv.gs.fragmentOpcode == fb_op),
+                   "HF2: a control frame between fragments does not disturb the reassembly state");
+  __CPROVER_assert(fr.opcode != WsOpcode_PING || (G_pong_sent == 1 && G_pong_n == n && (GK >= n || G_pong_gk == pgk) && G_data_sent == 0 && G_close_sent == 0),
+                   "HF3: a ping is answered with exactly one pong carrying exactly the ping's payload");
+  __CPROVER_assert(fr.opcode == WsOpcode_PING || G_pong_sent == 0, "HF4: pongs are sent only in answer to pings");
+  __CPROVER_assert(fr.opcode != WsOpcode_PONG || (G_data_sent + G_close_sent + G_pong_sent + G_sendClose_calls + G_closecb_calls + G_closeSession_calls == 0), "HF5: a pong is a no-op");
+  if (fr.opcode == WsOpcode_CLOSE) {
+    __CPROVER_assert(G_close_sent == ((had && !was_closing) ? 1 : 0), "HF6: the close is echoed exactly once per session: iff the session exists and no close frame has been sent yet");
+    __CPROVER_assert(G_close_sent == 0 || G_close_frame_code == code, "HF7: the echo carries the received status code (1005 if none)");
+    __CPROVER_assert(G_closecb_calls == (srv._onClose ? 1 : 0) && (!srv._onClose || G_closecb_code == code), "HF8: the close callback runs once iff registered, with the received code");
+    __CPROVER_assert(!srv.has_gs && G_closeSession_calls == 1, "HF9: the session is forgotten and the connection closed exactly once");
+  } else {
+    __CPROVER_assert(G_close_sent == 0 && G_closecb_calls == 0 && G_closeSession_calls == 0, "HF10: only a CLOSE frame echoes a close, runs the close callback or closes the connection");
+  }
+  bool known = is_data || fr.opcode == WsOpcode_PING || fr.opcode == WsOpcode_PONG || fr.opcode == WsOpcode_CLOSE;
+  __CPROVER_assert(known || (G_sendClose_calls == 1 && G_sendClose_code == 1002 && G_err_calls == (srv._onError ? 1 : 0)), "HF11: a reserved opcode fails the connection with 1002");
+  __CPROVER_assert(!known || G_sendClose_calls == 0, "HF12: defined opcodes never trigger a protocol-error close here");
+  IORA_CANARY("h_hf: returns");
+  if (fr.opcode == WsOpcode_PING) { IORA_CANARY("h_hf: ping"); }
+  if (fr.opcode == WsOpcode_CLOSE && G_close_sent) { IORA_CANARY("h_hf: close echoed"); }
+  if (!known) { IORA_CANARY("h_hf: reserved opcode"); }
+}
